@@ -6,3 +6,29 @@ Theorem C16_plan_sound : C16_plan_sound_stmt.
 Proof. exact C16_plan_sound_proof. Qed.
 Print Assumptions C16_plan_sound.
 
+(* ---- completeness of the closure (proofs/PC16b.v) ----
+   The statements in theories/StmtSolve.v quantify over arbitrary integer draws and are FALSE
+   (a draw of -1 lets a probability-0 action succeed): kept visible, refuted below; the repaired
+   statements restrict histories to the model's range of rand(), 0 <= k. *)
+From NasimV Require Import StmtSolve.
+From NasimV.proofs Require Import PC16b.
+
+Theorem C16_closure_complete :
+  forall sc l,
+    wf_scenario sc = true -> closed sc (fst (solve sc)) = true ->
+    Forall (fun p => In (fst p) (flat sc) /\ 0 <= snd p)%Z l ->
+    state_le sc (fst (run_steps sc (initial_state sc) l)) (fst (solve sc)).
+Proof. exact C16_closure_complete_nonneg_proof. Qed.
+Print Assumptions C16_closure_complete.
+
+Theorem C16_unsolvable_means_unreachable :
+  forall sc l,
+    wf_scenario sc = true -> closed sc (fst (solve sc)) = true -> solvable sc = false ->
+    Forall (fun p => In (fst p) (flat sc) /\ 0 <= snd p)%Z l ->
+    goal sc (fst (run_steps sc (initial_state sc) l)) = false.
+Proof. exact C16_unsolvable_means_unreachable_nonneg_proof. Qed.
+Print Assumptions C16_unsolvable_means_unreachable.
+
+Theorem C16_closure_complete_unrestricted_refuted : ~ C16_closure_complete_stmt.
+Proof. exact C16_closure_complete_stmt_refuted. Qed.
+Print Assumptions C16_closure_complete_unrestricted_refuted.
